@@ -31,7 +31,7 @@ STUB_COMPONENTS = ["leaf processors (svsim.lib)", "RecordingExecutor", "SimClock
 ASSUMPTIONS = ["volatile fields are exactly: run_id (header and identity.run_id), timestamp, timing.started_at, "
                "timing.finished_at, timing.wall_ms, timing.cpu_ms, seq - nothing else is removed before comparing"]
 REQUIRED_PROBES = ["reused_pipeline_second_traced_run", "reused_pipeline_with_sweep", "failing_subject", "history_contains_other_config",
-                   "result_object_fed_back", "other_process_other_hashseed", "cli_launch_repeated_with_same_launch_id", "concurrent_first_traced_runs_in_fresh_interpreter"]
+                   "result_object_fed_back", "other_process_other_hashseed", "cli_launch_repeated_with_same_launch_id", "concurrent_first_traced_runs_in_fresh_interpreter", "orchestrator_shared_with_sibling_config", "stochastic_processor_with_seeded_global_prng"]
 CONFIG = {
     "quick": {"runs": 2000, "budget_s": 240, "timeout_s": 120},
     "thorough": {"runs": 60000, "budget_s": 1500, "timeout_s": 120},
@@ -55,6 +55,11 @@ def generate(rng: random.Random, tier: str, seed: int) -> dict:
             kind, k = rng.choice(fs)
             subject = gen.apply_failure(a, kind, k)
             fail = [kind, k]
+    py_seed = None
+    if fail is None and a["truth"][-1]["out"] == "float" and rng.random() < 0.2:
+        # a stochastic processor drawing from the global `random` generator; the caller seeds it before every run
+        subject = dict(subject, nodes=subject["nodes"] + [{"processor": "SvJitter", "parameters": {"scale": 2.0}}])
+        py_seed = rng.getrandbits(32)
     b = gen.gen_pipeline(rng)
     details = [rng.choice(harness.DETAILS) for _ in range(rng.randint(1, 2))]
     ops = [["untraced", "A", None]]
@@ -71,6 +76,12 @@ def generate(rng: random.Random, tier: str, seed: int) -> dict:
         ops.append([rng.choice(["fresh", "untraced"]), "B", rng.choice(harness.DETAILS)])
     if rng.random() < 0.5:
         ops.append(["untraced", "A", None])
+    variant = _sweep_variant(subject) if fail is None else None
+    if variant is not None and rng.random() < 0.5:
+        # one orchestrator object shared by several Pipelines: a sibling configuration (same nodes and parameters, another
+        # sweep expression) runs on it before and after A
+        d0 = details[0]
+        ops += [["shared_variant", "A", d0], ["shared", "A", d0], ["shared_variant", "A", d0], ["shared", "A", d0]]
     rng.shuffle(ops)
     hs = rng.choice([1, 2, 3, 5, 7]) if (rng.random() < 0.12 or (fail and fail[0].startswith("unresolvable"))) else None
     cli_pair = rng.choice([None, None, None, ["--run-space-launch-id", "L-1"], ["--run-space-idempotency-key", "K-1"],
@@ -78,9 +89,22 @@ def generate(rng: random.Random, tier: str, seed: int) -> dict:
     from .. import threads as _th
     # 8 %: the FIRST traced runs of a fresh interpreter happen concurrently on two caller threads (config-borne failures only)
     concurrent = {"sched_seed": rng.getrandbits(48), "strategy": rng.choice(_th.STRATEGIES)} \
-        if (rng.random() < 0.08 and not subject.get("faults")) else None
-    return {"concurrent": concurrent, "A": subject, "B": dict(b, faults=[]), "ops": ops, "fail": fail, "A_truth": a.get("truth"), "remote_exec": rng.random() < 0.25,
+        if (rng.random() < 0.08 and not subject.get("faults") and py_seed is None) else None    # (a shared global PRNG drawn from by two threads is not reproducible by definition)
+    return {"py_seed": py_seed, "variant": variant, "concurrent": concurrent, "A": subject, "B": dict(b, faults=[]), "ops": ops, "fail": fail, "A_truth": a.get("truth"), "remote_exec": rng.random() < 0.25,
             "hashseed": hs, "cli_pair": cli_pair}
+
+
+def _sweep_variant(a: dict) -> dict | None:
+    """A with the first sweep expression changed (same processors, same explicit parameters): another configuration that
+    shares A's pipeline shape. None when A has no sweep expression."""
+    v = copy.deepcopy(a)
+    for n in v["nodes"]:
+        sw = (n.get("derive") or {}).get("parameter_sweep")
+        if sw and sw.get("parameters"):
+            k = sorted(sw["parameters"])[0]
+            sw["parameters"][k] = f"({sw['parameters'][k]}) + 0.5"
+            return v
+    return None
 
 
 def normalize(recs: list[dict]) -> list[dict]:
@@ -148,6 +172,9 @@ def _child_main() -> int:
     w = SimWorld(seed ^ 0xC10, lane="c10child")
     w.remote_exec = bool(sc.get("remote_exec"))
     try:
+        if sc.get("py_seed") is not None:
+            import random as _pyrandom
+            _pyrandom.seed(sc["py_seed"])
         rr = harness.run_scenario(sc["A"], w, trace_mode="file", detail=detail, name="child")
         recs, _ = harness.parse_lines(rr["emissions"])
         out = {"records": normalize(recs), "outcome": {k: v for k, v in _outcome_key(rr["outcome"], rr).items()}}
@@ -246,8 +273,27 @@ def execute(sc: dict, seed: int) -> dict:
         a_untraced = []
         a_traced: dict[str, list] = {}
         n_reuse = 0
+        shared_orch = None
         for i, (how, which, detail) in enumerate(sc["ops"]):
             s = sc[which]
+            if sc.get("py_seed") is not None:
+                import random as _pyrandom
+                _pyrandom.seed(sc["py_seed"])          # the caller's own seeding, before every run (traced or not)
+            if how in ("shared", "shared_variant"):
+                from semantiva import Pipeline
+                from ..executor import RecordingExecutor, SvOrchestrator, SvTransport
+                if shared_orch is None:
+                    shared_orch = SvOrchestrator(RecordingExecutor())
+                cfg = sc["variant"] if how == "shared_variant" else s
+                p_sh = Pipeline(copy.deepcopy(cfg["nodes"]), logger=harness.quiet_logger(), orchestrator=shared_orch, transport=SvTransport())
+                rr = harness.run_scenario(dict(cfg, faults=[]), w, trace_mode="file", detail=detail, pipeline=p_sh, name=f"o{i}")
+                stats["subruns"] = stats.get("subruns", 0) + 1
+                stats["probe.orchestrator_shared_with_sibling_config"] = 1
+                if how == "shared_variant":
+                    continue
+                recs, _ = harness.parse_lines(rr["emissions"])
+                a_traced.setdefault(detail, []).append((i, "shared_orchestrator", _outcome_key(rr["outcome"], rr), normalize(recs)))
+                continue
             if how == "untraced":
                 rr = harness.run_scenario(s, w, trace_mode="none", name=f"o{i}")
             elif how == "fresh":
@@ -286,6 +332,8 @@ def execute(sc: dict, seed: int) -> dict:
             else:
                 recs, _ = harness.parse_lines(rr["emissions"])
                 a_traced.setdefault(detail, []).append((i, how, ok, normalize(recs)))
+        if sc.get("py_seed") is not None:
+            stats["probe.stochastic_processor_with_seeded_global_prng"] = 1
         if sc.get("fail"):
             stats["probe.failing_subject"] = 1
             stats[f"fault.{sc['fail'][0]}"] = 1
@@ -318,8 +366,11 @@ def execute(sc: dict, seed: int) -> dict:
                 harness.write_cli_config(sc["A"], f"pair{k}.yaml", trace=harness.trace_cfg("file", "hash", f"pair{k}"), run_space=rs)
                 argv = ["run", f"pair{k}.yaml"] + sc["cli_pair"]
                 for kk, vv in sc["A"]["context"].items():
-                    argv += ["--context", f"{kk}={json.dumps(vv)}"]
+                    argv += ["--context", f"{kk}={harness.cli_value(vv)}"]
                 first = len(w.emissions)
+                if sc.get("py_seed") is not None:
+                    import random as _pyrandom
+                    _pyrandom.seed(sc["py_seed"])
                 r = harness.run_cli(argv)
                 recs, _ = harness.parse_lines(w.emissions[first:])
                 pair.append((r["code"], normalize(recs)))
